@@ -940,8 +940,13 @@ func TestC05LateRegistration(t *testing.T) {
 	idx := 0
 	for _, lp := range latePairs() {
 		merged := routemodel.Merge(lp.base, lp.late)
-		for _, mount := range []string{"bare"} {
+		// (behind a ServeMux the earlier handler is the mux AddToMux filled before the late registrations: it has the snapshot
+		// and the patterns of the root resources known then)
+		for _, mount := range []string{"bare", "mux", "prefix-addtomux"} {
 			for _, r := range lateRequests(merged) {
+				if mount != "bare" && (r.Path == "" || strings.Contains(r.Path, "//") || strings.Contains(r.Path, "..") || strings.Contains(r.Path, "/.")) {
+					continue // ServeMux redirects unclean paths
+				}
 				idx++
 				if idx%sn != si {
 					continue
